@@ -41,6 +41,7 @@ EVENT_CLASS = {
     "strva": "C08-stringify-va-spacing",
     "pasteempty": "C08-paste-placemarker",
     "hidearg": "C08-arg-outer-hidden",
+    "litparam": "C08-param-in-literal",
 }
 
 # --------------------------------------------------------------------------- rendering
